@@ -12,12 +12,26 @@ def perm(rng, alts):
 
 def alt_ids(rng, m, style=None, zero_ok=False):
     """m distinct positive ids: 1..m, shifted, or sparse/multi-digit (with zero_ok: sometimes 0..m-1)."""
-    style = style or rng.choice(["1m", "1m", "1m", "shift", "shift", "sparse", "sparse", "huge"] + (["0m"] * 2 if zero_ok else []))
+    style = style or rng.choice(["1m", "1m", "1m", "shift", "shift", "sparse", "sparse", "huge", "concat", "stride"] + (["0m"] * 2 if zero_ok else []))
     if style == "0m":
         return list(range(0, m))
     if style == "huge":
         base = rng.choice([10 ** 6, 2 ** 31 - 2, 2 ** 62, 10 ** 18])   # all below 2**63: numpy int64 arrays are a documented input type
         return sorted(rng.sample(range(base, base + 5 * m + 5), m))
+    if style == "concat" and m <= 14:
+        # ids whose decimal spellings run into each other when concatenated (1|11 = 11|1, 12|1 = 1|21, …)
+        return sorted(rng.sample([1, 2, 11, 12, 21, 22, 111, 112, 121, 122, 211, 212, 221, 222], m))
+    if style == "stride":
+        # ids that differ by multiples of m (a, a+1, b, b+m, …): pair encodings such as a*m+b collide on them
+        s0 = rng.randint(0 if zero_ok else 1, 6)
+        pool = sorted(set(s0 + i + j * m for j in range(3) for i in range(m)))
+        ids = set()
+        if m >= 4:
+            a = rng.choice(pool[:m])
+            b = rng.choice([x for x in pool[:2 * m] if x not in (a, a + 1) and x + m not in (a, a + 1)])
+            ids = {a, a + 1, b, b + m}
+        rest = [x for x in pool if x not in ids]
+        return sorted(ids | set(rng.sample(rest, m - len(ids))))
     if style == "1m":
         return list(range(1, m + 1))
     if style == "shift":
@@ -174,21 +188,117 @@ def shrink_profile_case(case):
                 yield c2
 
 
+def _stable(obj):
+    import hashlib
+    return int(hashlib.sha256(repr(obj).encode()).hexdigest()[:8], 16)
+
+
+def _add_batch(inst, batch, via):
+    """add [(order, mult)] to an OrdinalInstance through one public entry point"""
+    import numpy as np
+    if via == "vote_map":
+        inst.append_vote_map({tuple(tuple(c) for c in o): m for o, m in batch})
+    elif via == "order_list":
+        inst.append_order_list([tuple(tuple(c) for c in o) for o, m in batch for _ in range(m)])
+    elif via == "order":
+        for o, m in batch:
+            for _ in range(m):
+                inst.append_order(tuple(c[0] for c in o))
+    elif via == "order_array":
+        rows = [[c[0] for c in o] for o, m in batch for _ in range(m)]
+        if rows:
+            inst.append_order_array(np.array(rows, dtype=object))
+    else:
+        raise ValueError(via)
+
+
+def _entry_points(batch):
+    vias = ["vote_map", "order_list"]
+    if batch and all(len(c) == 1 for o, _ in batch for c in o):
+        vias.append("order")
+        if len({len(o) for o, _ in batch}) == 1:
+            vias.append("order_array")
+    return vias
+
+
 def grown_instance(profile, alts, expected_type, warm):
     """The instance built through the public API in two stages on ONE object: add the first ballots,
-    run `warm(inst)` (e.g. query it once), add the rest.  Returns None when the API-built instance
-    would not have the intended data type or alternative set (then the caller builds it directly)."""
+    run `warm(inst)` (e.g. query it once), add the rest.  The entry point of each stage
+    (append_vote_map / append_order_list / append_order / append_order_array, where the ballots allow it)
+    and whether part of the multiplicity of an already-added order is held back for the second stage are
+    derived from the profile, so the same case always builds the same way.  The result has the same
+    orders, in the same storage order, with the same multiplicities as the directly built instance.
+    Returns None when the API-built instance would not have the intended data type or alternative set
+    (then the caller builds it directly)."""
     from preflibtools.instances import OrdinalInstance
     if len(profile) < 2:
         return None
+    h = _stable(profile)
     inst = OrdinalInstance()
     cut = max(1, len(profile) // 2)
-    inst.append_vote_map({tuple(tuple(c) for c in o): m for o, m in profile[:cut]})
+    first = [(o, m) for o, m in profile[:cut]]
+    second = [(o, m) for o, m in profile[cut:]]
+    if h % 3 != 0:
+        # hold back part of the multiplicity of the orders of the first stage
+        held = []
+        for k, (o, m) in enumerate(first):
+            if m >= 2:
+                keep = 1 + (h >> (k % 16)) % (m - 1) if m > 2 else 1
+                first[k] = (o, keep)
+                held.append((o, m - keep))
+        second = held + second if (h >> 5) % 2 else second + held
+    v1 = _entry_points(first)
+    v2 = _entry_points(second)
     try:
-        warm(inst)
+        _add_batch(inst, first, v1[(h >> 8) % len(v1)])
+        try:
+            warm(inst)
+        except Exception:
+            pass
+        _add_batch(inst, second, v2[(h >> 12) % len(v2)])
     except Exception:
-        pass
-    inst.append_vote_map({tuple(tuple(c) for c in o): m for o, m in profile[cut:]})
+        return None
     if inst.data_type != expected_type or set(inst.alternatives_name) != set(alts):
         return None
+    want = [tuple(tuple(c) for c in o) for o, _ in profile]
+    if [tuple(tuple(c) for c in o) for o in inst.orders] != want:
+        # `held + second` can only reorder when an order of the second stage precedes ... never for
+        # orders already stored; a different storage order means the case is built directly instead
+        return None
     return inst
+
+
+def strict_case_instance(case, warm, alts=None):
+    """OrdinalInstance of a case {"orders": [flat strict order], "mults"?: [int], "grow"?: bool, "alts"}:
+    built directly, or (grow) through the public append_* entry points in two stages with `warm(inst)` run
+    in between (see grown_instance)."""
+    mults = case.get("mults") or [1] * len(case["orders"])
+    prof = [(tuple((a,) for a in o), k) for o, k in zip(case["orders"], mults)]
+    alts = alts if alts is not None else case["alts"]
+    inst = None
+    if case.get("grow"):
+        inst = grown_instance(prof, alts, "soc", warm)
+    if inst is None:
+        inst = make_ordinal(prof, alts=alts, data_type="soc")
+    return inst
+
+
+def strict_case_extras(rng, case):
+    """adds multiplicities / the two-stage construction to a strict-profile case (in place)"""
+    n = len(case["orders"])
+    r = rng.random()
+    if r < 0.3:
+        case["mults"] = [rng.choice([1, 1, 2, 3, 5, 17, 100]) for _ in range(n)]
+    if rng.random() < 0.25 and n >= 2:
+        case["grow"] = True
+        if "mults" not in case and rng.random() < 0.5:
+            case["mults"] = [rng.choice([1, 2, 3, 4]) for _ in range(n)]
+    return case
+
+
+def strict_case_shrinks(case):
+    """shrink candidates that simplify the extras of a strict-profile case"""
+    if case.get("grow"):
+        yield {k: v for k, v in case.items() if k != "grow"}
+    if case.get("mults"):
+        yield {k: v for k, v in case.items() if k != "mults"}
